@@ -177,6 +177,7 @@ def translate(src_root):
     emit("""import DtsVerif.Props.C06
 import DtsVerif.Props.C04
 import DtsVerif.Model.TimeCoords
+import DtsVerif.Model.Guards
 import Mathlib.Tactic.Ring
 import Mathlib.Tactic.FieldSimp
 /-! GENERATED by harness/translate.py from the current dts_accessor.py — do not edit. -/
@@ -744,9 +745,140 @@ def translate_time(src_root):
     return "\n".join(L) + "\n"
 
 
+# ================================================================================================ input guards
+def _guard_pred(test, subject_ok):
+    """an assert condition over one array -> predicate on the IEEE class `c` of a single corrupted entry (Lean text), or None.
+    subject_ok(node) says whether `node` denotes the guarded array."""
+    src = ast.unparse(test)
+    # np.all(np.isfinite(A))
+    if isinstance(test, ast.Call) and _key(test.func) == "np.all" and len(test.args) == 1:
+        a = test.args[0]
+        if isinstance(a, ast.Call) and _key(a.func) == "np.isfinite" and len(a.args) == 1 and subject_ok(a.args[0]):
+            return "c.isFinite"
+        if isinstance(a, ast.Compare) and len(a.ops) == 1 and isinstance(a.ops[0], ast.GtE) and subject_ok(a.left) \
+                and isinstance(a.comparators[0], ast.Constant) and a.comparators[0].value == 0:
+            return "c.geZero"
+    # not np.any(A <= 0.0)
+    if isinstance(test, ast.UnaryOp) and isinstance(test.op, ast.Not) and isinstance(test.operand, ast.Call) \
+            and _key(test.operand.func) == "np.any" and len(test.operand.args) == 1:
+        a = test.operand.args[0]
+        if isinstance(a, ast.Compare) and len(a.ops) == 1 and isinstance(a.ops[0], ast.LtE) and subject_ok(a.left) \
+                and isinstance(a.comparators[0], ast.Constant) and a.comparators[0].value == 0:
+            return "(!c.leZero)"
+    return None
+
+
+def translate_guards(src_root):
+    """the assertions that refuse unusable input, read from the source and abstracted to the six IEEE classes of `Model/Guards`;
+    generated theorems: every listed corruption falsifies a guard that is actually in the source and reached before any value
+    is returned, and the model's verdict table is what these guards give"""
+    root = Path(src_root) / "dtscalibration"
+    cu = ast.parse((root / "calibrate_utils.py").read_text())
+    su = ast.parse((root / "calibration" / "section_utils.py").read_text())
+    acc = ast.parse((root / "dts_accessor.py").read_text())
+    L = ["\nnamespace DtsVerif.GenGuards\nopen DtsVerif.Guards\n"]
+
+    def func(tree, name):
+        for node in ast.walk(tree):
+            if isinstance(node, ast.FunctionDef) and node.name == name:
+                return node
+        raise Untranslatable(f"function {name} not found")
+
+    # ---- parse_st_var: every path to `return` passes both assertions
+    f = func(cu, "parse_st_var")
+    body = [st for st in f.body if not (isinstance(st, ast.Expr) and isinstance(st.value, ast.Constant))]
+    preds, target = [], None
+    for st in body:
+        if isinstance(st, ast.Assign) and len(st.targets) == 1 and isinstance(st.targets[0], ast.Name) and target is None:
+            target = st.targets[0].id
+            v = st.value
+            if not (isinstance(v, ast.IfExp) and ast.unparse(v.test) == "callable(st_var)" and ast.unparse(v.body) == "st_var(st)"):
+                raise Untranslatable(f"parse_st_var: the variance is no longer formed as `st_var(st) if callable(st_var) else ...`: {ast.unparse(v)[:80]}")
+        elif isinstance(st, ast.Assert):
+            pr = _guard_pred(st.test, lambda n: isinstance(n, ast.Name) and n.id == target)
+            if pr is None:
+                raise Untranslatable(f"parse_st_var: assertion outside the fragment: {ast.unparse(st.test)[:80]}")
+            preds.append(pr)
+        elif isinstance(st, ast.Return):
+            if ast.unparse(st.value) != target:
+                raise Untranslatable("parse_st_var returns something else than the validated array")
+            break
+        else:
+            raise Untranslatable(f"parse_st_var: a statement that may bypass the assertions: {ast.unparse(st)[:80]}")
+    if not preds:
+        raise Untranslatable("parse_st_var has no assertion before its return")
+    L.append(f"def varianceGuard (c : Cls) : Bool := {' && '.join(preds)}")
+    L.append("theorem variance_listed_refused : ∀ c ∈ listed .variance, varianceGuard c = false := by decide")
+    L.append("theorem variance_model : ∀ c : Cls, varianceGuard c = false → verdict .variance c = .raises := by\n  intro c; cases c <;> decide")
+    # every variance argument goes through parse_st_var in both solvers and in both propagation blocks
+    for tree, fname, names in ((cu, "calibration_single_ended_solver", ["st_var", "ast_var"]),
+                               (cu, "calibrate_double_ended_solver", ["st_var", "ast_var", "rst_var", "rast_var"]),
+                               (acc, "calibrate_single_ended", ["st_var", "ast_var"]),
+                               (acc, "calibrate_double_ended", ["st_var", "ast_var", "rst_var", "rast_var"])):
+        fn = func(tree, fname)
+        seen = set()
+        for node in ast.walk(fn):
+            if isinstance(node, ast.Call) and _key(node.func) == "parse_st_var" and len(node.args) == 2 and isinstance(node.args[1], ast.Name):
+                seen.add(node.args[1].id)
+        missing = [n for n in names if n not in seen]
+        if missing:
+            raise Untranslatable(f"{fname}: {missing} no longer pass through parse_st_var")
+    # ---- reference temperatures: validate_sections
+    f = func(su, "validate_sections")
+    tref = None
+    for node in ast.walk(f):
+        if isinstance(node, ast.Assert):
+            pr = _guard_pred(node.test, lambda n: ast.unparse(n) == "ds[k].values")
+            if pr is not None:
+                tref = pr
+    if tref is None:
+        raise Untranslatable("validate_sections: no finiteness assertion on the reference temperature series ds[k].values")
+    L.append(f"def trefGuard (c : Cls) : Bool := {tref}")
+    L.append("theorem tref_listed_refused : ∀ c ∈ listed .tref, trefGuard c = false := by decide")
+    L.append("theorem tref_model : ∀ c : Cls, trefGuard c = false ↔ verdict .tref c = .raises := by\n  intro c; cases c <;> decide")
+    for fname in ("calibrate_single_ended", "calibrate_double_ended"):
+        fn = func(acc, fname)
+        if not any(isinstance(n, ast.Call) and _key(n.func) == "validate_sections" for n in ast.walk(fn)):
+            raise Untranslatable(f"{fname} no longer calls validate_sections")
+    # ---- intensities at the reference locations
+    for fname, names in (("calibrate_single_ended", ["st", "ast"]), ("calibrate_double_ended", ["st", "ast", "rst", "rast"])):
+        fn = func(acc, fname)
+        found = {}
+        for node in ast.walk(fn):
+            if isinstance(node, ast.Assert):
+                for n in names:
+                    pr = _guard_pred(node.test, lambda a, n=n: ast.unparse(a) == f"self.{n}.isel(x=ix_sec)")
+                    if pr is not None:
+                        found[n] = pr
+        missing = [n for n in names if n not in found]
+        if missing or len(set(found.values())) != 1:
+            raise Untranslatable(f"{fname}: positivity assertion on the reference locations missing for {missing}")
+        tag = "S" if fname.endswith("single_ended") else "D"
+        L.append(f"def intensityGuard{tag} (c : Cls) : Bool := {found[names[0]]}")
+    # wls_sparse: finite observations and weights
+    f = func(cu, "wls_sparse")
+    fin = set()
+    for node in ast.walk(f):
+        if isinstance(node, ast.Assert):
+            for n in ("y", "w", "x0"):
+                if _guard_pred(node.test, lambda a, n=n: isinstance(a, ast.Name) and a.id == n) == "c.isFinite":
+                    fin.add(n)
+    if not {"y", "w"} <= fin:
+        raise Untranslatable(f"wls_sparse: finiteness assertions found only for {sorted(fin)}")
+    for tag in ("S", "D"):
+        L.append(f"def numerGuard{tag} (c : Cls) : Bool := intensityGuard{tag} c && (Cls.log c.overPos).isFinite")
+        L.append(f"def denomGuard{tag} (c : Cls) : Bool := intensityGuard{tag} c && (Cls.log c.posOver).isFinite")
+        L.append(f"theorem numer{tag}_model : ∀ c : Cls, numerGuard{tag} c = false ↔ verdict .numer c = .raises := by\n  intro c; cases c <;> decide")
+        L.append(f"theorem denom{tag}_model : ∀ c : Cls, denomGuard{tag} c = false ↔ verdict .denom c = .raises := by\n  intro c; cases c <;> decide")
+        L.append(f"theorem numer{tag}_listed_refused : ∀ c ∈ listed .numer, numerGuard{tag} c = false := by decide")
+        L.append(f"theorem denom{tag}_listed_refused : ∀ c ∈ listed .denom, denomGuard{tag} c = false := by decide")
+    L.append("\nend DtsVerif.GenGuards")
+    return "\n".join(L) + "\n"
+
+
 def translate_all(src_root):
     text, names = translate(src_root)
-    return text + translate_layout(src_root) + translate_time(src_root), names
+    return text + translate_layout(src_root) + translate_time(src_root) + translate_guards(src_root), names
 
 
 if __name__ == "__main__":
